@@ -392,6 +392,10 @@ func (st *c03State) callback(a Action) {
 		if variant == 1 {
 			rule = "field-fidelity-with-trailing-bytes"
 		}
+		if events == 0 && !cb.Console {
+			res.Probe("fidelity-" + cb.Name)
+			return
+		}
 		if events == 0 {
 			res.Violate("C03", rule, cb.Name+":no-console-event", fmt.Sprintf("agent %s: complete %s callback (+%d trailing bytes) produced no console event", d.NameID(), cb.Name, map[bool]int{true: extra}[variant == 1]), w.Sim)
 			return
